@@ -457,6 +457,45 @@ func checkEmitWidth(c *Ctx, rule string) {
 // delegatesWithMeasure: fn's body is `return H(s, m)` for a module function H; returns H and the index of the
 // parameter that receives the measure function.
 func delegatesWithMeasure(fn, m *ssa.Function) (*ssa.Function, int) {
+	h, k, _ := delegatesWithMeasureSplit(fn, m, nil)
+	return h, k
+}
+
+// delegatesWithMeasureSplit: as delegatesWithMeasure; the helper may be handed the text itself (splitIdx -1: it
+// splits) or, when `lines` is given, the result of lines(text) - the split made here, once (splitIdx: which
+// argument).
+func delegatesWithMeasureSplit(fn, m, lines *ssa.Function) (*ssa.Function, int, int) {
+	h, k, sp := delegatesWithMeasureImpl(fn, m, lines)
+	return h, k, sp
+}
+
+func delegatesWithMeasureImpl(fn, m, lines *ssa.Function) (*ssa.Function, int, int) {
+	rets := returnsOf(fn)
+	if len(rets) != 1 || len(fn.Blocks) != 1 {
+		return nil, -1, -1
+	}
+	splitIdx := -1
+	{
+		call, ok := results(rets[0])[0].(*ssa.Call)
+		if ok && lines != nil {
+			nsplit := 0
+			eachInstr(fn, func(in ssa.Instruction) {
+				if staticCallee(in) == lines {
+					nsplit++
+				}
+			})
+			for i, a := range call.Call.Args {
+				if sc, isC := a.(*ssa.Call); isC && sc.Call.StaticCallee() == lines && len(sc.Call.Args) == 1 && len(fn.Params) > 0 && sc.Call.Args[0] == ssa.Value(fn.Params[len(fn.Params)-1]) && nsplit == 1 {
+					splitIdx = i
+				}
+			}
+		}
+	}
+	h, k := delegatesWithMeasureCore(fn, m, splitIdx)
+	return h, k, splitIdx
+}
+
+func delegatesWithMeasureCore(fn, m *ssa.Function, splitIdx int) (*ssa.Function, int) {
 	rets := returnsOf(fn)
 	if len(rets) != 1 || len(fn.Blocks) != 1 {
 		return nil, -1
@@ -481,7 +520,7 @@ func delegatesWithMeasure(fn, m *ssa.Function) (*ssa.Function, int) {
 				k = i
 			}
 		}
-		if a == ssa.Value(fn.Params[0]) {
+		if a == ssa.Value(fn.Params[0]) || i == splitIdx {
 			sOK = true
 		}
 	}
@@ -493,11 +532,15 @@ func delegatesWithMeasure(fn, m *ssa.Function) (*ssa.Function, int) {
 
 // c18LongestLine checks one longest-line function: split once with Lines, measure only with `isMeasure` calls on
 // elements of the split, return 0 / a line's measure / a running maximum guarded by '>' over every line.
-func c18LongestLine(c *Ctx, ll, lines *ssa.Function, measureName string, isMeasure func(*ssa.Call) bool, isOtherMeasure func(*ssa.Call) bool) {
+func c18LongestLine(c *Ctx, ll, lines *ssa.Function, measureName string, isMeasure func(*ssa.Call) bool, isOtherMeasure func(*ssa.Call) bool, splitPar ...*ssa.Parameter) {
 	r := c.R
 	name := FuncName(ll)
-	var split *ssa.Call
+	var split ssa.Value
+	var splitCall *ssa.Call
 	nsplit := 0
+	if len(splitPar) == 1 && splitPar[0] != nil {
+		split = splitPar[0] // the lines arrive already split (once, by each caller: checked there)
+	}
 	var measures []*ssa.Call
 	wrong := ""
 	eachInstr(ll, func(in ssa.Instruction) {
@@ -506,7 +549,7 @@ func c18LongestLine(c *Ctx, ll, lines *ssa.Function, measureName string, isMeasu
 			return
 		}
 		if call.Call.StaticCallee() == lines {
-			split = call
+			split, splitCall = call, call
 			nsplit++
 			return
 		}
@@ -518,9 +561,11 @@ func c18LongestLine(c *Ctx, ll, lines *ssa.Function, measureName string, isMeasu
 		}
 	})
 	argIsParam := false
-	if split != nil {
+	if len(splitPar) == 1 && splitPar[0] != nil && nsplit == 0 {
+		nsplit, argIsParam = 1, true
+	} else if splitCall != nil {
 		// the string handed to the function (its only string parameter, wherever a receiver or a measure puts it)
-		if par, isPar := split.Call.Args[0].(*ssa.Parameter); isPar && par.Parent() == ll && isStringType(par.Type()) {
+		if par, isPar := splitCall.Call.Args[0].(*ssa.Parameter); isPar && par.Parent() == ll && isStringType(par.Type()) {
 			nstr := 0
 			for _, q := range ll.Params {
 				if isStringType(q.Type()) {
@@ -540,7 +585,7 @@ func c18LongestLine(c *Ctx, ll, lines *ssa.Function, measureName string, isMeasu
 			continue
 		}
 		sec, _ := sectionOfAny(args[len(args)-1])
-		if split == nil || sec != ssa.Value(split) {
+		if split == nil || sec != split {
 			okArgs = false
 		}
 	}
@@ -654,12 +699,16 @@ func c18LongestAll(c *Ctx, lines *ssa.Function, kinds []string) {
 			continue
 		}
 		// delegation to a shared helper that is handed this function's own measure
-		if h, k := delegatesWithMeasure(ll, m); h != nil {
+		if h, k, sp := delegatesWithMeasureSplit(ll, m, lines); h != nil {
 			r.Check("R18.1", FuncName(ll), "delegates to a shared helper, handing it String"+x+" as the measure", ll.Pos(), true, "")
 			if !analysed[h] {
 				analysed[h] = true
 				par := h.Params[k]
-				c18LongestLine(c, h, lines, "the measure it is given", func(call *ssa.Call) bool { return call.Call.Value == ssa.Value(par) }, func(call *ssa.Call) bool { return false })
+				var spar *ssa.Parameter
+				if sp >= 0 && sp < len(h.Params) {
+					spar = h.Params[sp]
+				}
+				c18LongestLine(c, h, lines, "the measure it is given", func(call *ssa.Call) bool { return call.Call.Value == ssa.Value(par) }, func(call *ssa.Call) bool { return false }, spar)
 			}
 			continue
 		}
